@@ -232,6 +232,7 @@ func checkProperty(prop, tier, repo, verif string, noEv, verbose bool) int {
 		Undecided   int     `json:"undecided"`
 		Known       int     `json:"known_findings"`
 		Info        int     `json:"informational"`
+		OutOfScope  int     `json:"out_of_scope_for_this_property"`
 		WallS       float64 `json:"wall_s"`
 		Doc         string  `json:"rule_text"`
 	}
@@ -245,6 +246,10 @@ func checkProperty(prop, tier, repo, verif string, noEv, verbose bool) int {
 		per[r.Rule] = pr
 		nsample := 0
 		for _, o := range r.Obligations {
+			if outOfScope(prop, o) {
+				pr.OutOfScope++
+				continue
+			}
 			if o.Status == Info {
 				pr.Info++
 				fmt.Printf("INFO %s | %s | %s | %s\n", o.Rule, o.Key, o.Pos, o.Detail)
@@ -444,6 +449,9 @@ func runAll(repo, verif string) int {
 			}
 			for _, o := range res.Obligations {
 				if o.Status != Violated && o.Status != Undecided {
+					continue
+				}
+				if outOfScope(pd.ID, o) {
 					continue
 				}
 				if _, ok := matchKnown(known, o); ok {
